@@ -179,6 +179,7 @@ def run(repo='/repo', tier='quick'):
     res.check(okc, 'C04.d', 'htp_connp_tx_create:PIPELINED:on-every-creation', 'every creation passes the pipelining test first', 'a transaction can be created without passing the pipelining test', tc.loc)
     c04e(db, res)
     c04f(db, res)
+    c04g(db, res)
     res.assumptions.append('values (ids inside request i and response i) are not tracked; only the counter/list discipline that pairing rests on')
     return res
 
@@ -262,3 +263,26 @@ def c04f(db, res):
             ok = e is not None and e.get('k') == 'bin' and e['op'] == '%' and linform(e['l']) == want and P.K(e['r']) == 'l->max_size'
             res.check(ok, 'C04.f', 'htp_list_array_replace:elements[(first+idx)%max_size]', 'slot is (first + idx) % max_size',
                       'htp_list_array_replace writes elements[%s]: not slot (first + idx) mod max_size (htp_conn_remove_tx would NULL the wrong transaction slot)' % S(x['idx']), x['loc'])
+
+
+def c04g(db, res):
+    """tx->index is the ordinal a transaction got when it was created.  Positions in conn->transactions move when
+    htp_connp_tx_freed() shifts finished transactions off the front, and out_next_tx_index is moved with them - tx->index is
+    not.  Addressing the list with it finds another transaction's slot (or none) as soon as the list has been shifted."""
+    res.rule('C04.g', 'tx->index is an ordinal, not a position: no call addresses conn->transactions (htp_list get / replace) with an index computed from a transaction\'s `index` field; positive controls: the field has one writer (the constructor) and the list is shifted somewhere')
+    writers = [(n, x) for n, f in sorted(db.fn.items()) for b, i, x in P.field_writes(f, 'index') if strip(x['l']).get('rec') == 'htp_tx_t']
+    shifts = [n for n, f in db.fn.items() for b, i, c in f.calls('htp_list_array_shift') if on_transactions(c)]
+    if not writers or not shifts:
+        raise AnalysisBroken('C04.g: positive controls vanished (writers of htp_tx_t.index: %d, shifts of the transaction list: %d)' % (len(writers), len(shifts)))
+    bad = []
+    nuse = 0
+    for n, f in sorted(db.fn.items()):
+        for b, i, c in f.calls():
+            if c.get('callee') in ('htp_list_array_get', 'htp_list_array_replace') and on_transactions(c):
+                nuse += 1
+                if any(m.get('field') == 'index' and m.get('rec') == 'htp_tx_t' for m in nodes(c['args'][1], lambda y: y.get('k') == 'member')):
+                    bad.append((n, c))
+    for n, c in bad:
+        res.violated('C04.g', '%s:%s(transactions, tx->index)' % (n, c['callee']), '%s addresses the transaction list with tx->index: after htp_connp_tx_freed() has shifted the list that is another slot, so the finished transaction is not unlinked (the list keeps a dangling entry and never shrinks again)' % n, c['loc'])
+    if not bad:
+        res.holds('C04.g', 'transactions-not-addressed-by-ordinal', '%d indexed accesses to the transaction list, none through tx->index' % nuse, '')
